@@ -18,5 +18,10 @@ Definition model_text (c : dcase) : string :=
 Definition impl_text (c : dcase) : string :=
   match c with CaseCreate _ _ _ o | CaseIndex _ _ o | CaseDrop _ _ o => o end.
 
-Definition check_case (c : dcase) : bool := String.eqb (model_text c) (impl_text c).
-Definition show_case (c : dcase) : string := model_text c.
+Definition check_one (c : dcase) : bool := String.eqb (model_text c) (impl_text c).
+
+(* A correspondence case is a list of observations: one for a single fluent chain; for a branching program (a base
+   builder, several builders derived from it, each rendered at some moment) one per rendering - every rendering must be
+   what the model prints for that builder's own call list. *)
+Definition check_case (l : list dcase) : bool := forallb check_one l.
+Definition show_case (l : list dcase) : string := join " || " (map model_text l).
